@@ -129,7 +129,7 @@ pub fn find(id: &str) -> Option<Box<dyn Prop>> {
 /// Which components ran real code and which ran a stub (reported in every evidence file).
 pub fn components() -> serde_json::Value {
     serde_json::json!({
-        "real": "every view: all of sliding_features::{pure_functions, rolling, sliding_windows}, compiled from /repo's working tree and instantiated at f64 (and at the exact scalar Q for C03's deciding mode)",
+        "real": "every view: all of sliding_features::{pure_functions, rolling, sliding_windows}, compiled from /repo's working tree and instantiated at f64 (at the exact scalar Q for C03's deciding mode; at f32 in one run in eight of C08 and C15)",
         "stub": ["Dyn (boxing adapter that forwards update/last/clone)", "Probe (Echo semantics + delivery log)", "Stall (withholds a child's first d outputs)", "Replay (plays back a recorded child output sequence)", "WoMean/WoVar (expose WelfordOnline::mean/variance as a view output)", "feed generator and fault injector", "exact scalar Q (C03 only)", "counting global allocator (C18 only)"],
     })
 }
